@@ -61,15 +61,16 @@ func build(engine string) string {
 		if err != nil {
 			die2("%v", err)
 		}
-		mf := filepath.Join(bdir, "alt.go.mod")
+		tag := fmt.Sprintf("alt%x", simkit.Hash64(rp))
+		mf := filepath.Join(bdir, tag+".go.mod")
 		alt := strings.Replace(string(mod), "=> /repo", "=> "+rp, 1)
 		if err := os.WriteFile(mf, []byte(alt), 0o644); err != nil {
 			die2("%v", err)
 		}
 		sum, _ := os.ReadFile(filepath.Join(hdir, "go.sum"))
-		_ = os.WriteFile(filepath.Join(bdir, "alt.go.sum"), sum, 0o644)
+		_ = os.WriteFile(filepath.Join(bdir, tag+".go.sum"), sum, 0o644)
 		args = append(args, "-modfile", mf)
-		out = filepath.Join(bdir, engine+".alt.test")
+		out = filepath.Join(bdir, engine+"."+tag+".test")
 		args[5] = out
 	}
 	args = append(args, "./workers/"+engine)
@@ -354,6 +355,9 @@ func runCheck(id, tier string) int {
 		}
 	}
 	replayDir := filepath.Join(verifRoot, "replays")
+	if d := os.Getenv("VERIF_REPLAY_DIR"); d != "" {
+		replayDir = d
+	}
 	_ = os.MkdirAll(replayDir, 0o755)
 	results := make([]*simkit.Result, workers)
 	errs := make([]error, workers)
@@ -554,8 +558,12 @@ func writeEvidence(d *checkDef, tier string, seed uint64, tot *simkit.Result, di
 		"wall_s":      wallAll,
 		"violations":  violations,
 	}
-	_ = os.MkdirAll(filepath.Join(verifRoot, "evidence"), 0o755)
-	if err := simkit.SaveJSON(filepath.Join(verifRoot, "evidence", d.ID+".json"), ev); err != nil {
+	evDir := filepath.Join(verifRoot, "evidence")
+	if d := os.Getenv("VERIF_EVIDENCE_DIR"); d != "" {
+		evDir = d // trial runs against scratch trees must not overwrite the real evidence
+	}
+	_ = os.MkdirAll(evDir, 0o755)
+	if err := simkit.SaveJSON(filepath.Join(evDir, d.ID+".json"), ev); err != nil {
 		die2("writing evidence: %v", err)
 	}
 }
